@@ -52,6 +52,11 @@ def scenarios():
                "pre": [], "inv": {"target": "//:top", "jobs": None, "strategy": "blocked-fifo", "seed": 15, "script": {"//:s0": {"signal": 9}, "//:s2": {"signal": 15}, "//:s3": {"exit": 256 + 0}}}})
     sc.append({"name": "experiments-dying-by-signal-j2", "tasks": sd + [gen.mk_task("", "top", "group", [t["id"] for t in sd])],
                "pre": [], "inv": {"target": "//:top", "jobs": 2, "strategy": "blocked-random", "seed": 16, "script": {"//:s1": {"signal": 11}, "//:s2": {"signal": 2}}}})
+    sc.append({"name": "failing-j2-plain-output-env", "tasks": fl + [T("top", deps=["p0", "p1", "p2", "p3"])],
+               "pre": [], "inv": {"target": "//:top", "jobs": 2, "strategy": "blocked-fifo", "seed": 17, "script": {"//:p1": {"exit": 3}}, "outer_env": {"NO_COLOR": "1", "TERM": "dumb", "COLUMNS": "10"}}})
+    sc.append({"name": "seq-chain-one-cpu-nested", "tasks": [T("x0", "run_experiment"), T("x1", deps=["x0"]), T("x2", "run_experiment", deps=["x1"])],
+               "pre": [], "inv": {"target": "//:x2", "jobs": None, "strategy": "blocked-fifo", "seed": 18, "proc": {"one_cpu": True, "cpu_index": 3},
+                                  "outer_env": {"COND_SLOT": "2", "COND_NAME": "outer", "COND_OUT": "/outer/o.task", "COND_DEPS": "", "FORCE_COLOR": "1"}}})
     sc.append({"name": "stdout-gone-j3", "tasks": fan + [gen.mk_task("", "top", "group", [t["id"] for t in fan])], "break_stdout": True,
                "pre": [], "inv": {"target": "//:top", "jobs": 3, "strategy": "blocked-random", "seed": 13}})
     sc.append({"name": "par-fan-j3-exits-while-aborting", "tasks": fan + [gen.mk_task("", "top", "combine", [t["id"] for t in fan])], "exits_after": 0.6,
@@ -75,7 +80,7 @@ def _argv(inv):
 def _setup(scn, root):
     gen.write_project(root, scn["tasks"])
     for inv in scn["pre"]:
-        kind, res = common.run_forked(schedsim.run_invocation, {"root": root, "argv": _argv(inv), "script": inv.get("script", {}), "strategy": inv["strategy"], "seed": inv["seed"]}, 60)
+        kind, res = common.run_forked(schedsim.run_invocation, {"root": root, "argv": _argv(inv), "script": inv.get("script", {}), "strategy": inv["strategy"], "seed": inv["seed"], "outer_env": inv.get("outer_env"), "proc": inv.get("proc")}, 60)
         if kind != "ok" or res["result"].get("exit") != 0:
             return "pre-history failed: %s %s" % (kind, res if kind != "ok" else res["result"])
     return None
@@ -89,7 +94,7 @@ def count_lines(arg):
         if err:
             return {"error": err}
         inv = scn["inv"]
-        spec = {"root": root, "argv": _argv(inv), "script": inv.get("script", {}), "strategy": inv["strategy"], "seed": inv["seed"], "count_lines": True,
+        spec = {"root": root, "argv": _argv(inv), "script": inv.get("script", {}), "strategy": inv["strategy"], "seed": inv["seed"], "outer_env": inv.get("outer_env"), "proc": inv.get("proc"), "count_lines": True,
                 "inject": {"signal": "INT", "at_line": -1, "scope": scope}}
         kind, res = common.run_forked(schedsim.run_invocation, spec, 90)
         if kind != "ok":
@@ -109,7 +114,7 @@ def inject_case(arg):
             return out
         rows_before = sched.read_rows(root)
         inv = scn["inv"]
-        spec = {"root": root, "argv": _argv(inv), "script": inv.get("script", {}), "strategy": inv["strategy"], "seed": inv["seed"],
+        spec = {"root": root, "argv": _argv(inv), "script": inv.get("script", {}), "strategy": inv["strategy"], "seed": inv["seed"], "outer_env": inv.get("outer_env"), "proc": inv.get("proc"),
                 "inject": {"signal": sig, "at_line": k, "scope": scope, "break_stdout": bool(scn.get("break_stdout")), "exits_after": scn.get("exits_after")}}
         kind, res = common.run_forked(schedsim.run_invocation, spec, 90)
         out["sig"] = "%s-%d-%s" % (scn["name"], k, sig)
